@@ -4,7 +4,7 @@
 From Coq Require Import List NArith ZArith Bool.
 From Coq.Strings Require Import Byte.
 Require Import GV.Base.Res GV.Base.Byt GV.Base.Ints GV.Model.Leb GV.Model.Prim GV.Spec.LineSpec GV.Model.LineRd.
-Require Import GV.Proofs.LineRdBase GV.Proofs.LineRdMono.
+Require Import GV.Proofs.LineRdBase GV.Proofs.LineRdMono GV.Proofs.LineRdCodec GV.Proofs.LineRdRefine GV.Proofs.LineRdInsn.
 Import ListNotations.
 Local Open Scope N_scope.
 
@@ -103,6 +103,89 @@ Theorem no_panic_rows : forall dbg be h, hdr_ok h ->
   (sequences dbg be h <> Panic /\ sequences dbg be h <> OutOfFuel).
 Proof. exact no_panic_all. Qed.
 
+(* ------------------------------------------------------------------------------------------------
+   Clause 1: for every well-formed program the emitted rows are exactly those of the DWARF state
+   machine (Spec/LineSpec.v, over unbounded Z).
+   pwf h        := the header parameters are in their byte ranges, non-zero where the standard demands
+                   it, 1 <= address_size <= 8, |standard_opcode_lengths| = opcode_base - 1
+   insn_wf h i  := operands fit their encodings; standard opcode k only if k < opcode_base; unknown
+                   standard opcodes carry exactly standard_opcode_lengths[op-1] canonical LEB operands;
+                   define_file only for version <= 4
+   prog_wf h is := pwf, every insn_wf, and along the SPEC run: 0 <= address <= mask(address_size),
+                   0 <= line < 2^64, op_index + advance < 2^64, every set_address >= current address
+                   and < min_tombstone.
+   ------------------------------------------------------------------------------------------------ *)
+
+(* LineInstruction::parse inverts the reference encoder: all opcodes, opcode_base <> 13, unknown
+   standard (0, 1, n operands) and unknown extended opcodes, both byte orders, any trailing bytes *)
+Theorem insn_roundtrip : forall dbg be h i rest,
+  pwf h -> insn_wf h i = true -> parse_insn dbg be h (enc_insn be h i ++ rest) = Ok (i, rest).
+Proof. exact insn_roundtrip_lemma. Qed.
+
+(* the u8 arithmetic of exec_special_opcode is the standard's: adj = op - opcode_base,
+   line += line_base + adj mod line_range, operation advance = adj / line_range *)
+Theorem special_opcode_arith : forall h op,
+  1 <= h_line_range h -> h_opcode_base h <= op ->
+  let adj := op - h_opcode_base h in
+  (h_line_base h + Z.of_N (adj mod h_line_range h))%Z = sp_line_inc h (Z.of_N op) /\
+  Z.of_N (adj / h_line_range h) = sp_op_adv h (Z.of_N op).
+Proof. exact special_arith. Qed.
+
+(* apply_operation_advance is §6.2.5.1 incl. the VLIW formulas
+     address += min_inst_len * ((op_index + adv) / max_ops);  op_index = (op_index + adv) mod max_ops
+   whenever nothing wraps and the new address fits the address size *)
+Theorem operation_advance_vliw : forall dbg h r adv,
+  pwf h -> inv h r ->
+  (Z.of_N (r_opi r) + Z.of_N adv < two64z)%Z ->
+  (s_address (s_advance h (Z.of_N adv) (rep r)) <= addr_mask h)%Z ->
+  exists r', apply_operation_advance dbg h r adv = Ok (r', None) /\
+             rep r' = s_advance h (Z.of_N adv) (rep r) /\ inv h r' /\ r_end r' = r_end r.
+Proof. exact aoa_sim. Qed.
+
+(* one instruction of the model = one instruction of the spec *)
+Theorem execute_refines_spec : forall dbg h r i,
+  pwf h -> inv h r -> r_end r = false -> step_wf h (rep r) i = true -> exec_sim_stmt dbg h r i.
+Proof. exact exec_sim. Qed.
+
+(* rows() over the encoded program = rows_spec, run to completion without error, no tombstone rows,
+   outside the known class of monotone_any_input *)
+Theorem rows_refine_spec : forall dbg be h is,
+  prog_wf h is = true -> h_program h = enc_prog be h is ->
+  exists rs, rows_model dbg be h = (rs, SEnd) /\ map rep rs = rows_spec h is /\
+             Forall (fun r => r_tomb r = false) rs /\
+             ~ swallowed_end (fst (fst (rows_ghost dbg be h))).
+Proof. exact rows_refine_spec_lemma. Qed.
+
+(* rep is injective on non-tombstone rows, so `map rep rs = rows_spec ..` determines rs *)
+Theorem rep_injective : forall r1 r2, r_tomb r1 = r_tomb r2 -> rep r1 = rep r2 -> r1 = r2.
+Proof. exact rep_inj. Qed.
+
+Example wf_program_example : forall be,
+  prog_wf (vliw_header be) vliw_program = true /\
+  h_program (vliw_header be) = enc_prog be (vliw_header be) vliw_program.
+Proof. exact vliw_wf. Qed.
+Example wf_program_rows : forall be,
+  map (fun s => (s_address s, s_op_index s, s_line s, s_end_sequence s)) (rows_spec (vliw_header be) vliw_program) =
+  [(4116, 0, 8, false); (4155, 0, 6, false); (4155, 0, 3, false); (4155, 0, 3, true);
+   (8192, 0, 1, false); (8192, 0, 1, true)]%Z.
+Proof. exact vliw_rows. Qed.
+Example insn_wf_example :
+  let h := mk_header false 5 8 0 0 1 1 true (-5) 14 17
+             [x00; x01; x01; x01; x01; x00; x00; x00; x01; x00; x00; x01; x00; x01; x03; x02] [] [] [] [] [] in
+  pwf h /\
+  forallb (insn_wf h)
+    [ISpecial 17; ISpecial 255; IUnkStd0 13; IUnkStd1 14 18446744073709551615;
+     IUnkStdN 15 [x81; x01; x00; xff; x7f]; IUnkExt 3 [x61; x00]; IUnkExt 255 [];
+     IAdvanceLine (-9223372036854775808)%Z; ISetAddress 18446744073709551615; IFixedAddPc 65535] = true.
+Proof. exact insn_wf_examples. Qed.
+
 Check monotone_any_input_refuted : exists dbg be h, hdr_ok h /\ ~ rows_monotone (fst (rows_model dbg be h)).
 Check no_panic_parse_insn : forall dbg be h inp,
   parse_insn dbg be h inp <> Panic /\ parse_insn dbg be h inp <> OutOfFuel.
+Check insn_roundtrip : forall dbg be h i rest,
+  pwf h -> insn_wf h i = true -> parse_insn dbg be h (enc_insn be h i ++ rest) = Ok (i, rest).
+Check rows_refine_spec : forall dbg be h is,
+  prog_wf h is = true -> h_program h = enc_prog be h is ->
+  exists rs, rows_model dbg be h = (rs, SEnd) /\ map rep rs = rows_spec h is /\
+             Forall (fun r => r_tomb r = false) rs /\
+             ~ swallowed_end (fst (fst (rows_ghost dbg be h))).
